@@ -30,7 +30,7 @@ def optNats (j : Json) (k : String) : Except String (Option (List Nat)) :=
 
 def jNpFs (a : List NpF) : Json := jFloats (a.map (·.v))
 
-def errName : Reject.Err → String
+private def errName : Reject.Err → String
   | .value => "value" | .runtime => "runtime" | .maxiter => "maxiter" | .bad => "bad"
 
 def mkLib (libLL lnp : Array Float) : List (Reject.LibRow (Nat × NpF) NpF) :=
